@@ -26,7 +26,16 @@ import (
 // ---------------------------------------------------------------------------
 // Part 2: sequential histories + Host spellings, black-box through ServeHTTP
 
-var pNames = []struct{ sub, base string }{{"app", "tunnox.net"}, {"web", "tunnox.net"}, {"app", "tunnel.test.local"}}
+// Names 3.. differ from another name ONLY by the case of the subdomain. The repository is
+// case-preserving (CreateMapping, uniqueness and index keys compare bytes), so each of them
+// can be owned by a different client than its twin.
+var pNames = []struct{ sub, base string }{
+	{"app", "tunnox.net"}, {"web", "tunnox.net"}, {"app", "tunnel.test.local"},
+	{"App", "tunnox.net"}, {"MyApp", "tunnox.net"}, {"myapp", "tunnox.net"}, {"APP", "tunnel.test.local"},
+}
+
+// nameDraw biases generated steps towards the case twins.
+var nameDraw = []int{0, 0, 1, 2, 3, 3, 4, 4, 5, 5, 6}
 
 func pFull(i int) string { return pNames[i].sub + "." + pNames[i].base }
 
@@ -148,18 +157,54 @@ func newPWorld(c PCase) (*pWorld, error) {
 	return w, nil
 }
 
-// hostDomains: the domains a Host header can legitimately denote: the host with an
-// optional trailing ":port" removed (the implementation's documented rule: cut at the last
-// colon) — compared case-insensitively and ignoring one trailing dot, which is the most
-// an implementation may normalise.
-func hostDomains(h string) map[string]bool {
-	out := map[string]bool{}
-	add := func(d string) { out[strings.TrimSuffix(strings.ToLower(d), ".")] = true }
+// hostDomains: the domains a Host header can denote: the host itself, or the host with a
+// trailing ":port" removed (the implementation's documented rule: cut at the last colon).
+// exact = byte-for-byte; fold = lower-cased and without one trailing dot, which is the most
+// an implementation may normalise — and only when no stored name equals the Host's domain
+// byte-for-byte (see candidates).
+func hostDomains(h string) (exact, fold map[string]bool) {
+	exact, fold = map[string]bool{}, map[string]bool{}
+	add := func(d string) {
+		exact[d] = true
+		fold[foldName(d)] = true
+	}
 	add(h)
 	if i := strings.LastIndexByte(h, ':'); i >= 0 {
 		add(h[:i])
 	}
-	return out
+	return
+}
+
+func foldName(d string) string { return strings.TrimSuffix(strings.ToLower(d), ".") }
+
+// candidates: the stored names whose owners may receive a request with this Host. If some
+// name that has an owner (in any lookup source) equals the Host's domain byte-for-byte, only
+// byte-equal names count: `MyApp.x` and `myapp.x` are different names with different
+// owners, and Host `MyApp.x` belongs to the first. Otherwise the case/trailing-dot folded
+// matches are tolerated (an implementation may normalise a Host that matches nothing as is).
+func (w *pWorld) candidates(h string) []int {
+	exact, fold := hostDomains(h)
+	has := func(i int) bool {
+		_, r := w.regOwn[i]
+		_, c := w.cldOwn[i]
+		return w.owner[i] != nil || r || c
+	}
+	var ex, fo []int
+	for i := range pNames {
+		if !has(i) {
+			continue
+		}
+		if exact[pFull(i)] {
+			ex = append(ex, i)
+		}
+		if fold[foldName(pFull(i))] {
+			fo = append(fo, i)
+		}
+	}
+	if len(ex) > 0 {
+		return ex
+	}
+	return fo
 }
 
 func plainSpelling(h string, name string) bool {
@@ -332,8 +377,7 @@ func (w *pWorld) request(st PStep, si int, r *pResult, fail func(string, string,
 		w.mod.ServeHTTP(rec, req)
 	}()
 	calls := w.sess.calls[before:]
-	doms := hostDomains(st.Host)
-	// which registered names does this Host denote (under the most generous normalisation)?
+	cands := w.candidates(st.Host)
 	if len(calls) > 1 {
 		fail("request-routed-more-than-once", fmt.Sprintf("Host %q: %+v", st.Host, calls), si)
 		return
@@ -351,10 +395,22 @@ func (w *pWorld) request(st PStep, si int, r *pResult, fail func(string, string,
 		r.feat("host:upper-or-mixed-case")
 	}
 	r.feat("request:" + st.Kind)
+	if len(cands) > 0 {
+		twins := 0
+		_, fold := hostDomains(st.Host)
+		for i := range pNames {
+			if fold[foldName(pFull(i))] && (w.owner[i] != nil) {
+				twins++
+			}
+		}
+		if twins >= 2 {
+			r.feat("host:matches-two-owned-names-differing-by-case")
+		}
+	}
 	if len(calls) == 0 {
 		r.rejectedN++
-		for i := range pNames {
-			if cur := w.owner[i]; cur != nil && doms[pFull(i)] && (cur.status != repos.HTTPDomainMappingStatusActive || cur.expired) {
+		for _, i := range cands {
+			if cur := w.owner[i]; cur != nil && (cur.status != repos.HTTPDomainMappingStatusActive || cur.expired) {
 				r.feat("rejected:inactive-or-expired-owner")
 			}
 		}
@@ -377,21 +433,23 @@ func (w *pWorld) request(st PStep, si int, r *pResult, fail func(string, string,
 	// acceptable (client, target) pairs
 	ok := false
 	var why []string
-	for i := range pNames {
-		if !doms[pFull(i)] {
-			continue
-		}
+	var dormant *pOwner
+	for _, i := range cands {
 		if cur := w.owner[i]; cur != nil {
 			// the repository is authoritative for the name: only its owner, only while active and unexpired
 			if cur.status != repos.HTTPDomainMappingStatusActive || cur.expired {
-				fail("inactive-or-expired-mapping-routed", fmt.Sprintf("Host %q routed to client %d %s although mapping %s is status=%s expired=%v", st.Host, call.client, call.url, cur.id, cur.status, cur.expired), si)
-				return
+				dormant = cur
+				why = append(why, fmt.Sprintf("repository mapping %s of %s is status=%s expired=%v: nobody", cur.id, pFull(i), cur.status, cur.expired))
+				continue
 			}
 			if call.client == cur.client && u.Host == fmt.Sprintf("%s:%d", cur.host, cur.port) {
 				ok = true
 				r.feat("routed:repository-owner")
 				if _, has := w.regOwn[i]; has {
 					r.feat("routed:repository-owner-over-legacy-entry")
+				}
+				if pFull(i) != strings.ToLower(pFull(i)) {
+					r.feat("routed:owner-of-mixed-case-name")
 				}
 			}
 			why = append(why, fmt.Sprintf("repository owner of %s = client %d %s:%d", pFull(i), cur.client, cur.host, cur.port))
@@ -412,6 +470,10 @@ func (w *pWorld) request(st PStep, si int, r *pResult, fail func(string, string,
 			why = append(why, fmt.Sprintf("cloud-control owner of %s = client %d", pFull(i), cl))
 		}
 	}
+	if !ok && dormant != nil && call.client == dormant.client {
+		fail("inactive-or-expired-mapping-routed", fmt.Sprintf("Host %q routed to client %d %s although mapping %s is status=%s expired=%v", st.Host, call.client, call.url, dormant.id, dormant.status, dormant.expired), si)
+		return
+	}
 	if !ok {
 		fail("routed-to-non-owner", fmt.Sprintf("Host %q (%s request) was routed to client %d target %s; rightful: %v", st.Host, st.Kind, call.client, call.url, why), si)
 		return
@@ -428,11 +490,21 @@ var v6s = []string{"[::1]", "[2001:db8::1]", "[fe80::1%25eth0]", "[::ffff:10.0.0
 
 func spellings(name string, other string) []string {
 	up := strings.ToUpper(name)
+	low := strings.ToLower(name)
 	mixed := strings.ToUpper(name[:1]) + name[1:]
+	swapped := strings.Map(func(r rune) rune {
+		switch {
+		case r >= 'a' && r <= 'z':
+			return r - 32
+		case r >= 'A' && r <= 'Z':
+			return r + 32
+		}
+		return r
+	}, name)
 	long := strings.Repeat("a", 300) + "." + name
 	out := []string{
 		name, name + ":80", name + ":8080", name + ":65535", name + ":0", name + ":",
-		up, mixed, up + ":443", name + ".", name + ".:80",
+		up, mixed, up + ":443", low, low + ":80", swapped, swapped + ":8080", other, other + ":80", strings.ToUpper(other), name + ".", name + ".:80",
 		name + ":80:90", name + ":x", ":" + name, other + ":" + name, name + ":" + other, name + ":80:" + other,
 		" " + name, name + " ", name + "\t", "x" + name, name + "x", "." + name, "www." + name, name + "/", name + "@" + other, other + "@" + name,
 		strings.TrimSuffix(name, ".net"), long, long + ":80", "", ":", ":80", "::", "[" + name + "]", "[" + name + "]:80",
@@ -445,8 +517,8 @@ func spellings(name string, other string) []string {
 }
 
 func genHost(t *rapid.T, l string) string {
-	a := rapid.IntRange(0, len(pNames)-1).Draw(t, l+"a")
-	b := rapid.IntRange(0, len(pNames)-1).Draw(t, l+"b")
+	a := rapid.SampledFrom(nameDraw).Draw(t, l+"a")
+	b := rapid.SampledFrom(nameDraw).Draw(t, l+"b")
 	sp := spellings(pFull(a), pFull(b))
 	switch rapid.IntRange(0, 9).Draw(t, l+"mode") {
 	case 0, 1, 2:
@@ -466,11 +538,11 @@ func genHost(t *rapid.T, l string) string {
 func genPStep(t *rapid.T, l string) PStep {
 	switch rapid.IntRange(0, 11).Draw(t, l+"do") {
 	case 0, 1:
-		return PStep{Do: "create", Name: rapid.IntRange(0, 2).Draw(t, l+"n"), Client: rapid.IntRange(0, 2).Draw(t, l+"c")}
+		return PStep{Do: "create", Name: rapid.SampledFrom(nameDraw).Draw(t, l+"n"), Client: rapid.IntRange(0, 2).Draw(t, l+"c")}
 	case 2:
-		return PStep{Do: "delete", Name: rapid.IntRange(0, 2).Draw(t, l+"n"), Client: rapid.IntRange(0, 2).Draw(t, l+"c"), Stale: rapid.IntRange(0, 3).Draw(t, l+"stale") == 0}
+		return PStep{Do: "delete", Name: rapid.SampledFrom(nameDraw).Draw(t, l+"n"), Client: rapid.IntRange(0, 2).Draw(t, l+"c"), Stale: rapid.IntRange(0, 3).Draw(t, l+"stale") == 0}
 	case 3:
-		return PStep{Do: "update", Name: rapid.IntRange(0, 2).Draw(t, l+"n"), Set: rapid.SampledFrom([]string{"inactive", "active", "expired", "future", "retarget"}).Draw(t, l+"set")}
+		return PStep{Do: "update", Name: rapid.SampledFrom(nameDraw).Draw(t, l+"n"), Set: rapid.SampledFrom([]string{"inactive", "active", "expired", "future", "retarget"}).Draw(t, l+"set")}
 	case 4:
 		if rapid.Bool().Draw(t, l+"on") {
 			return PStep{Do: "online", Client: rapid.IntRange(0, 2).Draw(t, l+"c")}
@@ -520,36 +592,49 @@ func TestProxyHistories(t *testing.T) {
 func TestHostSpellingProduct(t *testing.T) {
 	idx := 0
 	states := []string{"active", "inactive", "expired", "deleted", "none"}
-	for _, state := range states {
-		for _, legacy := range []int{0, 1, 2, 3} { // bit0: registry has the name for client C, bit1: cloud control has it for client C
-			for _, kind := range []string{"small", "large", "websocket"} {
-				idx++
-				if !vkit.Mine(idx) {
-					continue
+	// (name under test, other name): all-lower-case names, and names that differ from the
+	// other one only by case (the other always owned, active, by a different client)
+	pairs := [][2]int{{0, 1}, {4, 5}, {5, 4}, {3, 0}, {6, 2}}
+	for _, pair := range pairs {
+		for _, state := range states {
+			for _, legacy := range []int{0, 1, 2, 3} { // bit0: registry has the name for client C, bit1: cloud control has it for client C
+				for _, kind := range []string{"small", "large", "websocket"} {
+					idx++
+					if !vkit.Mine(idx) {
+						continue
+					}
+					c := PCase{}
+					for range pNames {
+						c.Registry = append(c.Registry, -1)
+						c.Cloud = append(c.Cloud, -1)
+					}
+					if legacy&1 != 0 {
+						c.Registry[pair[0]] = 2
+					}
+					if legacy&2 != 0 {
+						c.Cloud[pair[0]] = 2
+					}
+					var pre []PStep
+					pre = append(pre, PStep{Do: "create", Name: pair[1], Client: 1})
+					switch state {
+					case "active":
+						pre = append(pre, PStep{Do: "create", Name: pair[0], Client: 0})
+					case "inactive", "expired":
+						pre = append(pre, PStep{Do: "create", Name: pair[0], Client: 0}, PStep{Do: "update", Name: pair[0], Set: state})
+					case "deleted":
+						pre = append(pre, PStep{Do: "create", Name: pair[0], Client: 0}, PStep{Do: "delete", Name: pair[0], Client: 0})
+					}
+					c.Steps = pre
+					for _, h := range spellings(pFull(pair[0]), pFull(pair[1])) {
+						c.Steps = append(c.Steps, PStep{Do: "request", Host: h, Kind: kind})
+					}
+					r := runProxyCase(c)
+					class := "proxy/spelling-product/" + state
+					if foldName(pFull(pair[0])) == foldName(pFull(pair[1])) {
+						class += "/case-twin-owned-by-other-client"
+					}
+					reportProxy(t, c, r, class)
 				}
-				c := PCase{Registry: []int{-1, -1, -1}, Cloud: []int{-1, -1, -1}}
-				if legacy&1 != 0 {
-					c.Registry[0] = 2
-				}
-				if legacy&2 != 0 {
-					c.Cloud[0] = 2
-				}
-				var pre []PStep
-				pre = append(pre, PStep{Do: "create", Name: 1, Client: 1})
-				switch state {
-				case "active":
-					pre = append(pre, PStep{Do: "create", Name: 0, Client: 0})
-				case "inactive", "expired":
-					pre = append(pre, PStep{Do: "create", Name: 0, Client: 0}, PStep{Do: "update", Name: 0, Set: state})
-				case "deleted":
-					pre = append(pre, PStep{Do: "create", Name: 0, Client: 0}, PStep{Do: "delete", Name: 0, Client: 0})
-				}
-				c.Steps = pre
-				for _, h := range spellings(pFull(0), pFull(1)) {
-					c.Steps = append(c.Steps, PStep{Do: "request", Host: h, Kind: kind})
-				}
-				r := runProxyCase(c)
-				reportProxy(t, c, r, "proxy/spelling-product/"+state)
 			}
 		}
 	}
